@@ -18,12 +18,12 @@ ok = True
 from props import CLAIMED
 for pid, s in sorted(PROPS.items()):
     if pid not in CLAIMED: continue
-    k = (s["engine"], bool(s.get("race")))
-    if k in seen: continue
-    seen.add(k)
-    b, err = chk.build(k[0], k[1], "/repo", log)
-    print("build", k, "ok" if b else "FAILED")
-    if not b:
-        ok = False; sys.stderr.write(err[-2000:])
+    for k in [(s["engine"], bool(s.get("race")))] + [(e["engine"], bool(e.get("race"))) for e in s.get("also", [])]:
+        if k in seen: continue
+        seen.add(k)
+        b, err = chk.build(k[0], k[1], "/repo", log)
+        print("build", k, "ok" if b else "FAILED")
+        if not b:
+            ok = False; sys.stderr.write(err[-2000:])
 sys.exit(0 if ok else 1)
 PY
